@@ -253,6 +253,31 @@ def strict_subset_links(edges, kind):
     return out
 
 
+def sequential_outcomes(edges, cap=5040):
+    """every link set the in-place `empirical_subsets_filter` of the unfixed code can return, over the orders in
+    which the DAG vertices may be visited (all permutations of the linked vertices; sampled beyond `cap`)"""
+    import random as _r
+    sets = {e: frozenset(ms) for e, ms in edges}
+    allp = strict_subset_links(edges, "all")
+    verts = sorted({x for l in allp for x in l}, key=repr)
+    n_perm = math.factorial(len(verts))
+    perms = itertools.permutations(verts) if n_perm <= cap else (_r.Random(7).sample(verts, len(verts)) for _ in range(cap))
+    outs = set()
+    for order in perms:
+        links = set(allp)
+        for x in order:
+            preds = [p for p, q in links if q == x]
+            if preds:
+                mn = min(len(sets[p]) for p in preds)
+                links -= {(p, x) for p in preds if len(sets[p]) != mn}
+            succ = [q for p, q in links if p == x]
+            if succ:
+                mx = max(len(sets[q]) for q in succ)
+                links -= {(x, q) for q in succ if len(sets[q]) != mx}
+        outs.add(frozenset(links))
+    return outs
+
+
 def pred(c, r, nodes, edges):
     """clauses of C14 evaluated on the implementation's answer r; returns [(failure_class, detail)]"""
     f = c["f"]
@@ -382,7 +407,14 @@ def pred(c, r, nodes, edges):
         if all(ms for _, ms in edges):  # the definition is read for non-empty hyperedges (see assumptions)
             exp = sort_rows([[enc_id(a), enc_id(b)] for a, b in strict_subset_links(edges, kind)], 2)
             if v["edges"] != exp:
-                fails.append((f"{kind}-links-differ-from-definition", f"{v['edges']} vs prescribed {exp}"))
+                cls = f"{kind}-links-differ-from-definition"
+                if kind == "empirical":
+                    # witness pattern of the known defect: the answer is what the in-place filter yields for some
+                    # visiting order of the vertices; any other wrong answer is a different finding
+                    got = frozenset((dv(a), dv(b)) for a, b in v["edges"])
+                    if got in sequential_outcomes(edges):
+                        cls = "empirical-links-depend-on-visit-order"
+                fails.append((cls, f"{v['edges']} vs prescribed {exp}"))
     return fails
 
 
@@ -621,7 +653,7 @@ def run(ctx):
                 "missing node / invalid option requests; non-trivial = distinct (request, result) on a hypergraph with an edge of >= 2 members")
     cases = load_corpus()
     ctx.stats["corpus_cases"] = len(cases)
-    n_h = ctx.n(90, 2500)
+    n_h = ctx.n(1200, 12000)
     for _ in range(n_h):
         nodes, edges = gen_any(rng)
         ctx.stats["hypergraphs"] += 1
